@@ -7,6 +7,7 @@ from gen import classes
 class C07(common.SpecCheck):
     pid = "C07"
     title = "Tensor variable names tell the truth and inputs are never modified"
+    QUICK = {"nseeds": 8, "specs": 300, "round": 300, "budget": 0}
     rule = ("mixture of classes S, O, A, K, P x hash-seed pool (rename / setRankIds / swizzle sequences differ between "
             "emission orders); after each execution on the reference runtime: every global named <Name>_<Ranks> that "
             "holds a tensor has rank ids spelling <Ranks>; each Einsum's result is bound to <Output>_<declared-or-rank-"
